@@ -16,8 +16,11 @@ From CV Require Export Wallet.Seed.
 Export ListNotations.
 Open Scope N_scope.
 
-(** observed result of decodeBIP39Phrase; error class 1 = word count, 2 = unrecognized
-    word, 3 = checksum, 0 = an error the harness could not classify (compared as "an error") *)
+(** observed result of decodeBIP39Phrase.  The number carried by [OErr] is what the harness made
+    of the error text (1 = word count, 2 = unrecognized word, 3 = checksum, 0 = unclassified); it
+    is recorded for the reader and is NOT compared: the property fixes that a malformed phrase is
+    rejected, not which of several applicable errors is reported, in which order the validations
+    run, or how an error is worded. *)
 Inductive dobs := OOk (hi lo : N) | OErr (class : N).
 
 Inductive case :=
@@ -34,12 +37,11 @@ Fixpoint list_eqb (a b : list N) : bool :=
   | _, _ => false
   end.
 
-Definition class_ok (k want : N) : bool := (k =? 0) || (k =? want).
-
 (** A case is checked against the hand-written model of Wallet/Seed.v and, when the
     harness could regenerate them from the current wallet/seed.go (go/ast translator,
     module SeedGen in the run directory), against the regenerated functions as well:
-    [enc] / [dec] are [encode] / [decode_res] of either. *)
+    [enc] / [dec] are [encode] / [decode_res] of either.  Decode: accepted with the same
+    entropy, or rejected (with whatever error). *)
 Definition check_case_with (enc : (N -> N -> N) -> N -> N -> list N)
                            (dec : (N -> N -> N) -> list token -> dres) (c : case) : bool :=
   match c with
@@ -47,14 +49,22 @@ Definition check_case_with (enc : (N -> N -> N) -> N -> N -> list N)
   | CDec ts h0 l0 c obs =>
       match dec (cks_at h0 l0 c) ts, obs with
       | DOk hi lo, OOk hi' lo' => (hi =? hi') && (lo =? lo')
-      | DErrCount, OErr k => class_ok k 1
-      | DErrWord, OErr k => class_ok k 2
-      | DErrChecksum, OErr k => class_ok k 3
-      | _, _ => false
+      | DOk _ _, OErr _ => false
+      | _, OOk _ _ => false
+      | _, OErr _ => true
       end
   end.
 
-Definition check_case (c : case) : bool := check_case_with encode decode_res c.
+(** rejected iff the phrase has a defect ([defects]: independent of any order of validation) *)
+Definition defects_agree (c : case) : bool :=
+  match c with
+  | CEnc _ _ _ _ => true
+  | CDec ts h0 l0 c obs =>
+      let defective := match defects (cks_at h0 l0 c) ts with [] => false | _ => true end in
+      match obs with OOk _ _ => negb defective | OErr _ => defective end
+  end.
+
+Definition check_case (c : case) : bool := check_case_with encode decode_res c && defects_agree c.
 
 Fixpoint mismatches_from (chk : case -> bool) (i : N) (cs : list case) : list N :=
   match cs with
